@@ -276,7 +276,8 @@ def check(ctx):
             for e in rd.r.of_kind("call")
             if e.data.get("name") == "numpy.array" and e.data["args"] and
             e.data["args"][0] is rd.raw)
-        handlers = [e for e in rd.r.of_kind("except")]
+        # (handlers of the reader itself; a helper's own try is its business)
+        handlers = [e for e in rd.r.of_kind("except") if e.depth == 0]
         reraise = all(any(
             x.kind == "raise" and x.idx > h.idx and
             "FileInterfaceException" in (x.data.get("exc_name") or "")
@@ -318,6 +319,7 @@ def check(ctx):
             want = {"timestamps": ("t",), "positions_xyz": XYZ,
                     "orientations_quat_wxyz": WXYZ}
             used_max = 0
+            undecided_layout = False
             for pname, w in want.items():
                 v = bound.get(pname)
                 try:
@@ -328,6 +330,7 @@ def check(ctx):
                 if err is not None:
                     ctx.undecidable("C07.1", rd.f, f"{name}: layout of "
                                     f"{pname}: {err}")
+                    undecided_layout = True
                     continue
                 ok = got == w
                 ctx.ob("C07.1", rd.f, ok,
@@ -343,7 +346,9 @@ def check(ctx):
                    key=f"C07.1:{name}:rows")
             # C07.3 scaling
             sc = dict(lay.scales)
-            if "euroc" in name:
+            if "euroc" in name and undecided_layout:
+                pass      # scaling of an unmodelled column cannot be judged
+            elif "euroc" in name:
                 ok = sc == {"t": ("numpy.divide", 1e9)} or \
                     sc == {"t": ("Div", 1e9)} or \
                     sc == {"t": ("Mult", 1e-9)}
@@ -657,13 +662,26 @@ def _transform(ctx, prog):
         # scale: data['scale'] if present else 1 — by key presence
         salts = tm.strip_ite(scale)
         has_key = any(_key_of(a) == "scale" for a in salts if a.op == "sub")
+        gets = [x for x in scale.walk() if is_call_to(x, ".get")]
+        # data.get("scale") with `is None` deciding the default is exact:
+        # only an absent (or null) entry becomes 1, a 0 stays 0
+        none_tested = bool(gets) and all(
+            len(g.args[1]) == 1 and not g.args[2] and
+            tm.is_const(g.args[1][0], "scale") for g in gets) and any(
+            a.op == "cmp" and a.args[0] in ("Is", "IsNot") and
+            all(z in gets for z in tm.strip_ite(a.args[1])) and
+            a.args[2] is tm.NONE
+            for x in scale.walk() if x.op == "ite"
+            for a in tm.atoms(x.args[0]))
         truthy_default = any(x.op == "boolop" for x in scale.walk()) or \
-            any(is_call_to(x, ".get") for x in scale.walk())
-        presence = any(
+            (bool(gets) and not none_tested)
+        presence = none_tested or any(
             a.op == "cmp" and a.args[0] in ("In", "NotIn") and
             tm.is_const(a.args[1], "scale")
             for x in scale.walk() if x.op == "ite"
             for a in tm.atoms(x.args[0]))
+        has_key = has_key or (none_tested and any(
+            a in gets for a in salts))
         if truthy_default:
             ctx.ob("C07.5", f, False,
                    f"JSON transform: scale = {fmt(scale)[:120]} — a "
@@ -720,12 +738,15 @@ def _transform(ctx, prog):
            "4x4 SE(3)/Sim(3)", key="C07.5:transform:validated")
     disp = tm.strip_ite(rg.ret)
     kinds = {tm.callee_name(a) for a in disp}
-    ok = kinds == {"numpy.load", FI + "load_transform_json",
-                   "numpy.loadtxt"}
+    need = {"numpy.load", FI + "load_transform_json", "numpy.loadtxt"}
+    ok = need <= kinds
     ctx.ob("C07.1", g, ok,
            "load_transform dispatches to np.load / JSON / np.loadtxt by the "
-           "file's magic bytes" if ok else
-           f"load_transform loaders: {kinds}", key="C07.1:transform:loaders")
+           "file's magic bytes"
+           + (f" (further formats: {sorted(kinds - need)})"
+              if kinds - need else "") if ok else
+           f"load_transform no longer has a loader for "
+           f"{sorted(need - kinds)}: {kinds}", key="C07.1:transform:loaders")
 
 
 # ------------------------------------------------------------ ROS messages
